@@ -1235,6 +1235,19 @@ func (p *context) compileInstr(b llssa.Builder, instr ssa.Instruction) {
 		}
 		if p.returnNeedsImplicitRunDefers(v) {
 			b.RunDefers()
+			// go/ssa stores the operands of a return statement into the result
+			// variables, runs the deferred calls and reloads the result variables.
+			// Its lifting pass removed that RunDefers (it only looks for Defer
+			// instructions in the function itself, not in range-over-func bodies),
+			// so the loads compiled above ran before the deferred calls: reload
+			// them, otherwise updates of named results by those calls are lost.
+			for i, r := range v.Results {
+				if ld, ok := r.(*ssa.UnOp); ok && ld.Op == token.MUL && ld.Block() == v.Block() {
+					if alloc, ok := ld.X.(*ssa.Alloc); ok {
+						results[i] = b.UnOp(token.MUL, p.compileValue(b, alloc))
+					}
+				}
+			}
 		}
 		b.Return(results...)
 	case *ssa.If:
